@@ -298,7 +298,9 @@ def depth_balance_rule(F, R):
             if i in fn.reachable_from(fn.succ(i), avoid=set(decs)):
                 bad = (i, "comes round to itself without a decrement")
                 break
-            if set(fn.returns()) & fn.reachable_from(fn.succ(i), avoid=set(decs)):
+            # (only where the function pairs them itself: an `enter` helper that only raises the counter is judged at its callers'
+            # cycle clause above, not here)
+            if decs and set(fn.returns()) & fn.reachable_from(fn.succ(i), avoid=set(decs)):
                 bad = (i, "reaches a return without a decrement")
                 break
         R.inst("C09.g", "%s / every increment of VmCore.depth is paired with a decrement" % fn.short(), bad is None,
